@@ -19,6 +19,7 @@ class Server(object):
         self.shift_end = False
         self.next_end_service_date = float("Inf")
         self.busy_time = 0 * start_date  # zero of the clock's numeric type (float, or Decimal in exact mode)
+        self.busy_time_counted_until = start_date  # part of the current attachment already in busy_time (after a pause)
 
     @property
     def utilisation(self):
